@@ -459,6 +459,39 @@ def c10_directed_specs(corp, hash_seeds):
         ops = [_op(e, {"append_version": False} if (ci + j) % 2 else {}) for j, e in enumerate(chunk)]
         specs.append({"property": "C10", "kind": "api", "hash_seed": 0, "origin": "directed", "label": "corpus-pass-%d" % ci,
                       "knobs": {"step_clock": True}, "ops": ops})
+    # nesting depth swept across the interpreter's recursion limit: whatever the depth at which rendering or walking the
+    # tree gives up, compile_code must return a verdict (no reference is involved, so the stack-depth sensitivity of the
+    # outcome - risk B2 - does not matter here: raising is never right)
+    shapes = [("class-body", lambda n: C.HDR + "class A:\n    x = " + " + ".join(["1"] * n) + "\n"),
+              ("lambda", lambda n: C.HDR + "def f():\n    g = lambda: " + " + ".join(["1"] * n) + "\nf()\n"),
+              ("subscript-target", lambda n: C.HDR + "x = d0.Setting\nx.y[" + " + ".join(["x"] * n) + "] = 1\n"),
+              ("call-args", lambda n: C.HDR + "db.Setting = nofunc(" + " + ".join(["x"] * n) + ")\n"),
+              ("parens", lambda n: C.HDR + "db.Setting = nosuch" + "(" * (n // 4) + "1" + ")" * (n // 4) + "\n")]
+    for name, mk in shapes:
+        for lo in (150, 420, 690):
+            ops = [{"entry": "E/depth-%s-%d" % (name, n), "src": {"": mk(n)}, "options": {"append_version": False}} for n in range(lo, lo + 270, 30)]
+            specs.append({"property": "C10", "kind": "api", "hash_seed": 0, "origin": "directed", "label": "depth-window %s %d.." % (name, lo),
+                          "knobs": {"step_clock": True}, "ops": ops})
+    # the same runaway / failing constexpr program compiled again and again in one process (what the editor does while
+    # the user keeps typing elsewhere in the file): the n-th compile must be as prompt as the first
+    for ident in ("K/spins", "K/sleeps_long", "K/raises", "K/first_prints_second_spins"):
+        e = corp.by_id.get(ident)
+        if e is not None:
+            specs.append({"property": "C10", "kind": "api", "hash_seed": 0, "origin": "directed", "label": "again-and-again %s" % ident,
+                          "knobs": {"step_clock": True}, "ops": [_op(e, {"append_version": False}) for _ in range(7)]})
+    e = corp.by_id.get("K/same_call_body0")
+    if e is not None:
+        for fp in (FAULT_POINTS[3], FAULT_POINTS[1], FAULT_POINTS[22]):  # stall, slow, orphan - every time
+            specs.append({"property": "C10", "kind": "api", "hash_seed": 0, "origin": "directed", "label": "again-and-again fault %s" % fp["kind"],
+                          "knobs": {"step_clock": True}, "ops": [_op(e, {"append_version": False}, helpers=[dict(fp)], faulty=True) for _ in range(7)]})
+        # fixed schedules for a compile that arms a SIGALRM / starts threads (consumed only then)
+        for pi, plan in enumerate(([3] * 30, [1] * 30, [0, 3] * 15, [2, 1, 3] * 10)):
+            for ident in ("K/same_call_body0", "K/spins", "M/int_small", "E/many_lines"):
+                e2 = corp.by_id.get(ident)
+                if e2 is not None:
+                    specs.append({"property": "C10", "kind": "api", "hash_seed": 0, "origin": "directed", "label": "schedule-%d %s" % (pi, ident),
+                                  "knobs": {"step_clock": True, "sched": plan, "preempt_every": (300, 3000)[pi % 2]},
+                                  "ops": [_op(e2, {"append_version": False}), _op(e2, {"append_version": False})]})
     # programs that compile to nothing, or to long lines only, under the options that decorate the output
     bare = [corp.by_id[i] for i in ("E/empty", "E/only_comment", "E/only_import", "E/only_ws", "E/string_only", "E/pass_only", "E/constexpr_no_call",
                                     "E/very_long_line", "E/unicode_comment", "M/int_small", "R/example/one_file_to_rule_them_all") if i in corp.by_id]
